@@ -144,7 +144,28 @@ let run_solve (h : (string, string) Hashtbl.t) : string =
             ({ ec_dir = dir; ec_terminal = term }, ex)
           | _ -> failwith "ev") (split_on ';' evb) in
   let evf t y = let ya = Array.of_list y in List.map (fun (_, e) -> eval e t ya) evs in
-  let pr = { pr_f = f; pr_events = evf; pr_nevents = nat_of_int (List.length evs); pr_evcfg = List.map fst evs } in
+  let jacspec = get h "jac" "none" in
+  let pr_jac = if jacspec = "none" then None else begin
+      let i = String.index jacspec ':' in
+      let n = int_of_string (String.sub jacspec 0 i) in
+      let es = Array.of_list (List.map parse_expr (split_on ';' (String.sub jacspec (i + 1) (String.length jacspec - i - 1)))) in
+      Some (fun t y -> let ya = Array.of_list y in
+             List.init n (fun r -> List.init n (fun c -> eval es.(r * n + c) t ya)))
+    end in
+  let massspec = get h "mass" "none" in
+  let pr_mass = if massspec = "none" then None else begin
+      let i = String.index massspec ':' in
+      let n = int_of_string (String.sub massspec 0 i) in
+      let vs = Array.of_list (List.map unhx (split_on ',' (String.sub massspec (i + 1) (String.length massspec - i - 1)))) in
+      Some (List.init n (fun r -> List.init n (fun c -> vs.(r * n + c))))
+    end in
+  let parse_storage s =
+    if s = "identity" then SIdentity else if s = "full" then SFull
+    else match split_on ':' s with
+      | [_; ml; mu] -> SBanded (nat_of_int (int_of_string ml), nat_of_int (int_of_string mu))
+      | _ -> failwith "storage" in
+  let pr = { pr_f = f; pr_events = evf; pr_nevents = nat_of_int (List.length evs); pr_evcfg = List.map fst evs;
+             pr_jac = pr_jac; pr_mass = pr_mass } in
   let x0 = unhx (Hashtbl.find h "x0") and xend = unhx (Hashtbl.find h "xend") in
   let y0 = unlist (Hashtbl.find h "y0") in
   let full = get h "full" "0" = "1" in
@@ -160,6 +181,8 @@ let run_solve (h : (string, string) Hashtbl.t) : string =
     o_dense = (get h "dense" "0" = "1");
     o_defaults = unlist (get h "defaults" "0:");
     o_nstiff = n_of_int (int_of_string (get h "nstiff" "1000"));
+    o_jac_storage = parse_storage (get h "jacstorage" "full");
+    o_mass_storage = parse_storage (get h "massstorage" "identity");
   } in
   let query = unlist (get h "query" "0:") in
   (match solve_ivp fops pr x0 xend y0 opt fuel with
@@ -181,7 +204,8 @@ let run_solve (h : (string, string) Hashtbl.t) : string =
          Buffer.add_char buf '\n') s.sol_tev;
      log_summary "odelog" s.sol_odelog full buf;
      log_summary "evlog" s.sol_evlog full buf;
-     log_summary "jaclog" [] full buf;
+     log_summary "jaclog" s.sol_jaclog full buf;
+     if pr_jac = None && pr_mass = None && (meth = MRADAU || meth = MBDF) then Buffer.add_string buf "fd_default_same true\n";
      (match s.sol_segs with
       | None -> Buffer.add_string buf "span none\n"
       | Some segs ->
